@@ -1,14 +1,15 @@
 import KV.PlanLemmas
 import KV.C05
 import KV.Sched
+import KV.C05Overlap
 /-! # C05 — input-free Async providers really run concurrently
 
 Property statements only.  Two halves: (1) plan level — in the thread (pool) of an input-free Async
 provider nothing precedes it except input-free *synchronous* providers, so no two of them share a thread
 and none is sequenced after another Async provider or after any wait; (2) semantics — any vector of
 per-thread positions whose prefixes contain no wait and no `eg.Wait` is reached simultaneously by some
-schedule.  (The composition into a single ∃-schedule statement over `emitted p` is listed as open in
-DESIGN.md; the executable checker of the correspondence run evaluates it on every sampled plan.) -/
+schedule; and (3) their composition `C05_overlap`: for every accepted declaration there is an execution of the
+emitted program in which all input-free Async providers are inside their provider function at once. -/
 namespace C05
 open KV
 
@@ -45,5 +46,13 @@ theorem C05_targets_reachable {P : T1.Prog} (target : Nat → Nat) (h0 : 0 < P.t
       ∃ j, T1.opAt P 0 j = some (.spawn g) ∧ j < target 0) :
     ∃ s, T1.Reach P s ∧ ∀ t, t < P.threads.length → T1.pc s t = target t :=
   T1.all_targets_reachable target h0 hfree hspawn
+
+/-- **Overlap (composition of the two halves).** For the program emitted for any accepted declaration there is
+    an execution reaching a state in which *all* emitted Async providers without inputs are inside their
+    provider function at the same time (`KV.insideCall`: the thread's last executed op is the node's `enter`,
+    its `exit` has not happened).  Proved in `KV/C05Overlap.lean`. -/
+theorem C05_overlap {provs : List PSpec} {ret : Nat} {p : PlanOut} (h : plan provs ret = .ok p) :
+    ∃ s, T1.Reach (emitted p) s ∧ ∀ a, ZeroAsync p a → insideCall (emitted p) s a :=
+  KV.C05_overlap h
 
 end C05
